@@ -236,12 +236,159 @@ def _prefilter_conservative(ctx, b, bi, t):
     ctx.check(oko, 'R10.8', 'prefilter/other-side', where, b.path, 'the box must be tested against the larger shape under the larger shape\'s transform', found=foundo)
 
 
+def _decision_by_interpretation(ctx, prog, b):
+    """R10.4 / R10.8 when the decision is not written as one body with the two parry queries in it (helpers, early returns,
+    bool::then ..): CollisionTask::collides is interpreted for r_min below, at and above the special values, with the
+    answers of the parry queries scripted, and the operands of every query it makes are inspected."""
+    from ..absint import Interp, Iv, Sym, SOME, NONE
+    ctx.fn(b)
+    for p_ in prog.reachable_bodies([b.path]):
+        if p_.startswith('collisions::'):
+            ctx.fn(prog.bodies[p_])
+    nv = _const_value(prog, 'collisions::NEVER_COLLIDES')
+    tv = _const_value(prog, 'collisions::TOUCH_ONLY')
+    OK_ = lambda v: ('enum', 0, (v,))
+
+    def run(i, j, r, touch, pre, dist, n_i=3, n_j=5):
+        log = []
+
+        def val(I, st, a):
+            while isinstance(a, tuple) and a and a[0] in ('ref', 'refval', 'mref'):
+                a = I.deref(a, st)
+            return a
+
+        def h_min_distance(I, st, a, t, b2):
+            log.append(('min_distance', val(I, st, a[1]), val(I, st, a[2])))
+            return ('refval', Iv(r), ())
+
+        def h_intersection(I, st, a, t, b2):
+            ops = [val(I, st, x) for x in a]
+            boxed = any(isinstance(x, Sym) and isinstance(x.tag, tuple) and x.tag[0] == 'cuboid' for x in ops)
+            log.append(('prefilter' if boxed else 'touch', ops))
+            return OK_(pre if boxed else touch)
+
+        def h_distance(I, st, a, t, b2):
+            log.append(('distance', [val(I, st, x) for x in a]))
+            return OK_(Iv(dist))
+
+        def h_expect(I, st, a, t, b2):
+            v = val(I, st, a[0])
+            return v[2][0]
+
+        def h_vertices(I, st, a, t, b2):
+            sh = val(I, st, a[0])
+            return ('refval', tuple(Sym(('vertex', k)) for k in range(n_i if sh == Sym('Si') else n_j)), ())
+
+        def tagged(name, n):
+            def h(I, st, a, t, b2):
+                return Sym((name,) + tuple(val(I, st, x) for x in a[:n]))
+            return h
+
+        def h_center(I, st, a, t, b2):
+            return {'#adt': 'Point', 'coords': Sym(('center', val(I, st, a[0])))}
+
+        def h_mul(I, st, a, t, b2):
+            return Sym(('mul', val(I, st, a[0]), val(I, st, a[1])))
+        H = {'SafetyDistances::min_distance': h_min_distance, 'query::intersection_test': h_intersection, 'intersection_test::intersection_test': h_intersection,
+             'query::distance': h_distance, 'distance::distance': h_distance, 'Result::expect': h_expect, 'Result::unwrap': h_expect,
+             'TriMesh::vertices': h_vertices, 'TriMesh::local_aabb': tagged('aabb', 1), 'Aabb::loosened': tagged('loosened', 2),
+             'Aabb::half_extents': tagged('half_extents', 1), 'Aabb::center': h_center, 'Cuboid::new': tagged('cuboid', 1),
+             'From::from': tagged('translation', 1), 'Translation::from': tagged('translation', 1), 'Into::into': tagged('translation', 1),
+             'Mul::mul': h_mul}
+        for bi2, t2 in [(x, y) for pb in [b] + [prog.bodies[q] for q in prog.reachable_bodies([b.path]) if q in prog.bodies] for x, y in pb.calls()]:
+            n = cname(callee_name(t2))
+            if n.endswith('intersection_test'):
+                H[n] = h_intersection
+            elif n.split('::')[-1] == 'distance' and 'parry' in callee_name(t2):
+                H[n] = h_distance
+            elif 'parry' in callee_name(t2) or 'nalgebra' in callee_name(t2):
+                # the geometry library's constructors and accessors by their own name, whichever trait or type they are reached through
+                last = n.split('::')[-1]
+                by_last = {'loosened': tagged('loosened', 2), 'half_extents': tagged('half_extents', 1), 'center': h_center, 'local_aabb': tagged('aabb', 1),
+                           'vertices': h_vertices}
+                if last in by_last:
+                    H[n] = by_last[last]
+        me = {'#adt': 'collisions::CollisionTask', 'i': i, 'j': j, 'transform_i': ('refval', Sym('Ti'), ()), 'transform_j': ('refval', Sym('Tj'), ()),
+              'shape_i': ('refval', Sym('Si'), ()), 'shape_j': ('refval', Sym('Sj'), ())}
+        I = Interp(prog, H, fuel=100000, max_paths=16)
+        try:
+            outs = I.run(b.path, [('refval', me, ()), ('refval', Sym('safety-table'), ())])
+        except (absint.Unsupported, absint.Undecided) as e:
+            raise MachineryError('the pair decision could not be interpreted (%s): %s' % (type(e).__name__, e))
+        if len(outs) != 1:
+            raise MachineryError('the pair decision forks on point values (%d outcomes)' % len(outs))
+        return outs[0].ret, log
+    where = b.where(0)
+    bad = []
+    exact_ops = [Sym('Ti'), Sym('Si'), Sym('Tj'), Sym('Sj')]
+    exact_sw = [Sym('Tj'), Sym('Sj'), Sym('Ti'), Sym('Si')]
+    pre_bad = []
+    key_bad = []
+    for (i, j) in ((3, 1000), (1000, 3), (2, 5)):
+        want_pair = SOME((min(i, j), max(i, j)))
+        cases = []
+        for r in (nv, nv - 4.0):
+            for touch in (True, False):
+                cases.append((r, touch, True, 0.0, NONE, 'exempt'))
+        for touch in (True, False):
+            cases.append((tv, touch, not touch, 0.5, want_pair if touch else NONE, 'touch'))
+        r = 0.05
+        for pre, d, hit in ((False, 0.0, False), (True, 0.01, True), (True, r, True), (True, 0.2, False), (True, 0.05001, False)):
+            for touch in (True, False):
+                cases.append((r, touch, pre, d, want_pair if hit else NONE, 'distance'))
+        for r, touch, pre, d, want, what in cases:
+            for n_i, n_j in ((3, 5), (5, 3), (4, 4)):
+                got, log = run(i, j, r, touch, pre, d, n_i, n_j)
+                if got != want:
+                    bad.append('%s: r_min=%g touch=%s box-touches=%s distance=%g -> %r, expected %r' % (what, r, touch, pre, d, got, want))
+                for ev in log:
+                    if ev[0] == 'min_distance' and {ev[1], ev[2]} != {i, j}:
+                        key_bad.append('min_distance(%r, %r) for the task (%d, %d)' % (ev[1], ev[2], i, j))
+                    if ev[0] in ('touch', 'distance') and ev[1] not in (exact_ops, exact_sw):
+                        bad.append('%s query on %r' % (ev[0], ev[1]))
+                    if ev[0] == 'prefilter':
+                        ops = ev[1]
+                        small = 'i' if n_i < n_j else 'j'            # ties: either side may be boxed
+                        box_at = [k for k, x in enumerate(ops) if isinstance(x, Sym) and isinstance(x.tag, tuple) and x.tag[0] == 'cuboid']
+                        okb = False
+                        if len(box_at) == 1 and box_at[0] in (1, 3):
+                            bt, ot, osh = ops[box_at[0] - 1], ops[2 - (box_at[0] - 1)], ops[4 - box_at[0]]
+                            cub = ops[box_at[0]]
+                            he = cub.tag[1]
+                            if isinstance(he, Sym) and he.tag[0] == 'half_extents' and isinstance(he.tag[1], Sym) and he.tag[1].tag[0] == 'loosened':
+                                loos = he.tag[1]
+                                ab = loos.tag[1]
+                                amount = loos.tag[2]
+                                boxed = ab.tag[1] if isinstance(ab, Sym) and ab.tag[0] == 'aabb' else None
+                                side = 'i' if boxed == Sym('Si') else 'j' if boxed == Sym('Sj') else None
+                                placed = isinstance(bt, Sym) and bt.tag[0] == 'mul' and bt.tag[1] == Sym('T' + (side or '?')) and isinstance(bt.tag[2], Sym) and \
+                                    bt.tag[2].tag[0] == 'translation' and bt.tag[2].tag[1] == Sym(('center', loos))
+                                other = side is not None and ot == Sym('T' + ('j' if side == 'i' else 'i')) and osh == Sym('S' + ('j' if side == 'i' else 'i'))
+                                amt = isinstance(amount, Iv) and amount.is_point() and amount.lo == r
+                                okb = side is not None and placed and other and amt
+                        if not okb:
+                            pre_bad.append('%r' % (ops,))
+    ctx.check(not key_bad, 'R10.4', 'decision/r_min-key', where, b.path, 'r_min must be looked up for the task\'s own (i, j): ' + '; '.join(key_bad[:2]), found=str(key_bad[:2]))
+    ctx.check(not bad, 'R10.4', 'decision/verdicts', where, b.path,
+              'for scripted answers of the exact queries the verdict must be: exempt at r <= NEVER_COLLIDES, the intersection test at TOUCH_ONLY, otherwise '
+              'distance <= r_min (after a pre-filter that may only say `far`), reported as (min, max): ' + '; '.join(bad[:3]), found=str(bad[:3]), detail='%d scripted cases' % 1)
+    ctx.check(not pre_bad, 'R10.8', 'prefilter/solid-box', where, b.path,
+              'the pre-filter must test a solid box (Cuboid of the half extents of the bounding box loosened by r_min, at its centre in the boxed shape\'s frame) '
+              'against the other shape under that shape\'s transform: ' + '; '.join(pre_bad[:1]), found=str(pre_bad[:1]))
+    ctx.check(nv is not None and tv is not None and nv < tv and tv == 0.0, 'R10.4', 'decision/constants', where, b.path,
+              'NEVER_COLLIDES < TOUCH_ONLY == 0 required', found='%s, %s' % (nv, tv))
+    return b
+
+
 def _decision(ctx, prog):
     b = util.find_role(ctx, 'per-pair decision: method of CollisionTask returning Option<(u16, u16)>',
                        lambda b, sg: 'CollisionTask' in (b.raw.get('impl_self') or '') and 'Option<(u16, u16)>' in sg[0].replace('std::option::', ''), module='collisions::')
     calls = [(bi, t, cname(callee_name(t))) for bi, t in b.calls()]
     it = [(bi, t) for bi, t, n in calls if n.endswith('query::intersection_test') or n.endswith('intersection_test')]
     di = [(bi, t) for bi, t, n in calls if n.endswith('query::distance') or n == 'distance::distance' or n.endswith('::distance')]
+    if len(it) < 2 or len(di) < 1:
+        # the two parry queries are not both in this body (helpers took them over): decided by interpretation instead
+        return _decision_by_interpretation(ctx, prog, b)
     md = [(bi, t) for bi, t, n in calls if n == 'SafetyDistances::min_distance']
     ctx.check(len(md) == 1 and util.is_param(b.op_term(md[0][1]['args'][0], (md[0][0], None)), 2), 'R10.4', 'decision/r_min-source', b.where(md[0][0]) if md else b.where(0), b.path,
               'r_min must come from the safety table handed to the decision (parameter), for (self.i, self.j)')
